@@ -49,6 +49,10 @@ def generate(prop_module, only=None):
         except RecursionError as e:
             info['unsupported'].append(dict(unit=u.name, reason='recursion'))
             results = []
+        except Exception as e:
+            # an exception inside the interpreter/stubs on code shapes they do not anticipate: the unit cannot be stated (never a verdict)
+            info['unsupported'].append(dict(unit=u.name, reason=f'interpreter could not handle the code: {type(e).__name__}: {str(e)[:200]}'))
+            results = []
         n_ok = sum(1 for r in results if r[0] == 'ok')
         for kind, st, r in results:
             if kind == 'raise':
